@@ -200,6 +200,16 @@ func c20EndToEnd(t *gen.Tools, r *ev.Run, root, tier string) {
 			}
 		}
 	}
+	// ... and in a start state that already holds 12-18 / 29-34 other classes (the code point of a literal inside a
+	// range must survive the splitting of the range whatever the size of the set it is split in)
+	for _, n := range []int{12, 13, 14, 15, 16, 17, 18, 29, 30, 31, 32, 33, 34} {
+		g := &gram.Grammar{}
+		for i := 0; i < n; i++ {
+			g.Lex = append(g.Lex, gram.LexDef{Name: fmt.Sprintf("p%d", i), Kind: "tok", P: gram.Lit(rune(0x21 + 2*i))})
+		}
+		g.Lex = append(g.Lex, gram.LexDef{Name: "w", Kind: "tok", P: gram.Seq(gram.Rng(0xc0, 0xff), gram.Lit('x'))}, gram.LexDef{Name: "e", Kind: "tok", P: gram.Seq(gram.Lit(0xe9), gram.Lit('!'))})
+		edges = append(edges, edgeCase{g.Text(), g})
+	}
 	etexts := make([]string, len(edges))
 	for i, e := range edges {
 		etexts[i] = e.text
